@@ -138,7 +138,7 @@ def _mk_policy(kind: str, p: dict, clock):
     if kind == "alifo":
         return AdaptiveLIFO(congestion_threshold=max(2, cap // 3), capacity=cap)
     if kind == "codel":
-        return CoDelQueue(target_delay=0.01, interval=0.1, capacity=cap, clock_func=clock)
+        return CoDelQueue(target_delay=0.004, interval=0.04, capacity=cap, clock_func=clock)
     if kind == "red":
         return REDQueue(min_threshold=max(1, cap // 4), max_threshold=max(3, (3 * cap) // 4), max_probability=0.3,
                         capacity=cap, weight=0.2)
@@ -191,7 +191,7 @@ def build_queue_policies(p, seed):
             if kind in ("red", "balk_red"):
                 s.probe("red_probabilistic_drop", st.dropped_probabilistic > 0)
             if kind == "codel":
-                s.probe("codel_drop", server.stats_dropped > 0)
+                s.probe("codel_drop", st.dropped > 0)
             if kind in ("balk", "balk_red"):
                 s.probe("balked", server.stats_dropped > 0)
     return sim, stats
